@@ -102,7 +102,7 @@ pub fn run(f: &[&str]) -> String {
         }
         match F::parse_wo_compile(&text) {
             Err(_) => {
-                out.push_str("wo=E");
+                out.push_str("wo_nf=E\two=E");
                 return out;
             }
             Ok(e) => {
@@ -118,7 +118,7 @@ pub fn run(f: &[&str]) -> String {
             }
         }
         match F::parse(&text) {
-            Err(_) => out.push_str("\tc=E"),
+            Err(_) => out.push_str("\tc_nf=E\tc=E"),
             Ok(e) => {
                 let v = sym_vars(e.var_names().len());
                 let r = e.eval(&v);
